@@ -319,6 +319,35 @@ func up4ImageCheck(s *sessSys) []up4Viol {
 	return out
 }
 
+// up4UnjustifiedRefs returns the F-SEIDs that hold a tunnel-peer or application reference in the plug-in's bookkeeping
+// which no live rule of the model justifies.
+func up4UnjustifiedRefs(s *sessSys) map[uint64]bool {
+	out := map[uint64]bool{}
+	u := s.in.p4.up4
+	sess := func(fseid uint64) *rSess {
+		for _, x := range s.m.live(-1) {
+			if x.UPSEID == fseid {
+				return x
+			}
+		}
+		return nil
+	}
+	for params, peer := range u.tunnelPeerIDs {
+		for _, r := range peer.usedBy.ToSlice() {
+			ref := r.(tnlPeerReference)
+			x := sess(ref.fseid)
+			if x == nil {
+				continue // a dead session's reference shows up as a stale entry by itself
+			}
+			f := x.far(ref.farID)
+			if f == nil || f.Action&ActionForward == 0 || vIP4(f.OHCIP) != params.tunnelIP4Dst {
+				out[ref.fseid] = true
+			}
+		}
+	}
+	return out
+}
+
 func has(m map[string]fpMatch, k string) bool { _, ok := m[k]; return ok }
 
 func (e *vP4Env) poolIP() uint32 { return ip2int(e.up4.ueIPPool.IP) }
@@ -427,7 +456,25 @@ func c04Oracle(c *stepCtx) {
 	}
 	vs := up4ImageCheck(s)
 	if len(vs) == 0 {
-		return
+		// Reference counts that no live rule justifies are latent: the shared entry outlives its last real user. Play that
+		// continuation (delete every session except the holders of the unjustified references) and report what the switch
+		// then shows under the label of the step that created the leak.
+		holders := up4UnjustifiedRefs(s)
+		if len(holders) == 0 {
+			return
+		}
+		s.confirming = true
+		for _, x := range s.m.live(-1) {
+			if !holders[x.UPSEID] {
+				s.exec(&sessReq{sReq: sReq{Kind: kDel, Conn: x.Conn}, Sess: x.Idx, Label: "confirm-del"})
+			}
+		}
+		s.confirming = false
+		vs = up4ImageCheck(s)
+		if len(vs) == 0 {
+			return
+		}
+		vs[0].desc += "; shown after deleting the other sessions that shared the object"
 	}
 	v := vs[0]
 	if !c.accepted && (c.req.Kind == kEst || c.req.Kind == kMod || c.req.Kind == kDel) && s.m.Assoc[c.req.Conn] != "" {
@@ -483,9 +530,9 @@ func TestVerifC04(t *testing.T) {
 		"distinct_nontrivial = distinct canonical states + restart cases"
 	res.Assumptions = []string{"fake switch implements P4Runtime write semantics (INSERT existing = ALREADY_EXISTS, MODIFY/DELETE missing = NOT_FOUND, per-update status in details)",
 		"refUP4 = appendix A.4 of DESIGN.md; TC is not asserted for PDRs without QER; meter shape is loose, liveness and rate asserted"}
-	depth := 4
+	depth := 5
 	if vEnv.Thorough {
-		depth = 5
+		depth = 6
 	}
 	scs := c04Scenarios()
 	mk := func(ex *seqExplorer, sc c04Scenario) func() seqSys {
